@@ -631,6 +631,7 @@ fn remove_harness(faults: bool, refusable: bool) -> (bool, Option<u64>, u64) {
 
 fn remove_body() {
     let (_, ok, len) = remove_harness(true, false);
+    common_post(ok, len);
     unsafe {
         assert!(ok.is_some() == (FS[L] == ABSENT), "C05.execute_remove.ok_iff_removed");
         assert!(FS[L] == ABSENT || FS[L] == ORIG_L, "C05.execute_remove.file_gone_or_untouched");
@@ -638,7 +639,6 @@ fn remove_body() {
         kani::cover!(ok.is_some(), "cover.ok");
         kani::cover!(ok.is_none(), "cover.err");
     }
-    common_post(ok, len);
 }
 ghost_fs_unit!(wrappers, c05_execute_remove, { remove_body() });
 ghost_fs_unit!(std, c05_execute_remove_std, { remove_body() });
@@ -687,13 +687,13 @@ fn softlink_harness(faults: bool, refusable: bool) -> (bool, Option<u64>, u64) {
 
 fn hardlink_body() {
     let (_, ok, len) = hardlink_harness(true, false);
-    replace_post(ok, ORIG_T);
     common_post(ok, len);
+    replace_post(ok, ORIG_T);
 }
 fn softlink_body() {
     let (_, ok, len) = softlink_harness(true, false);
-    replace_post(ok, SYM_T);
     common_post(ok, len);
+    replace_post(ok, SYM_T);
 }
 ghost_fs_unit!(wrappers, c05_execute_hardlink, { hardlink_body() });
 ghost_fs_unit!(std, c05_execute_hardlink_std, { hardlink_body() });
@@ -725,6 +725,9 @@ fn move_harness(faults: bool, refusable: bool, use_rename: bool, preexisting: bo
 }
 
 fn move_post(ok: Option<u64>, len: u64, preexisting: bool) {
+    // frame and crash-point obligations first: Kani assumes an assertion after checking it, so a later obligation is only
+    // checked on the paths where the earlier ones held
+    common_post(ok, len);
     unsafe {
         if preexisting {
             // C18: something already at the target → error, source and target untouched
@@ -744,7 +747,6 @@ fn move_post(ok: Option<u64>, len: u64, preexisting: bool) {
         kani::cover!(preexisting || ok.is_some(), "cover.moved_or_existing");
         kani::cover!(ok.is_none(), "cover.err");
     }
-    common_post(ok, len);
 }
 
 macro_rules! move_unit {
